@@ -1,7 +1,7 @@
 SMALL = {"slots.callbacks": 1, "slots.locks": 0, "slots.schedules": 0, "slots.promises": 2, "slots.tasks": 2}
 THOR = {"slots.callbacks": 2, "slots.locks": 0, "slots.schedules": 0, "slots.promises": 3, "slots.tasks": 3, "faults": 2}
 
-def co(names, labels, opts=None, optsT=None, reach=None, **kw):
+def co(names, labels, opts=None, optsT=None, reach=None, pgquick=True, **kw):
     out = []
     for n in names:
         d = {"name": n, "pkg": CO, "labels": labels, "opts": dict(opts or SMALL), "opts_thorough": dict(optsT or THOR)}
@@ -9,8 +9,10 @@ def co(names, labels, opts=None, optsT=None, reach=None, **kw):
             d["reach"] = reach[n]
         d.update(kw)
         out.append(d)
-        # the same harness over the Postgres store handlers (thorough tier)
-        e = dict(d); e["opts"] = dict(d["opts"]); e["opts"]["backend"] = 1; e["opts_thorough"] = dict(d["opts_thorough"]); e["opts_thorough"]["backend"] = 1; e["tier"] = "thorough"
+        # the same harness over the Postgres store handlers (quick tier too unless pgquick=False)
+        e = dict(d); e["opts"] = dict(d["opts"]); e["opts"]["backend"] = 1; e["opts_thorough"] = dict(d["opts_thorough"]); e["opts_thorough"]["backend"] = 1
+        if not pgquick:
+            e["tier"] = "thorough"
         out.append(e)
     return out
 
@@ -40,7 +42,9 @@ EXPL = "bounded symbolic execution (Go SSA -> SMT) of the real coroutine(s) and 
 reg["C01"] = {"level": "model_checking", "explanation": EXPL, "assumptions": ASSUME_CO,
     "outside": ["JSON/protobuf rendering of bodies", "process crash/restart (SQL engine durability is assumed)", "claim payloads and notifications are checked under C07/C08/C19"],
     "harnesses": co(PROMISE_H, ["C01:", "O2:G1", "O2:I2", "O2:I1:promises"], reach=REACH_P) + co(CB_H, ["C01:", "O2:G1", "O2:I2"], opts=CBOPT, reach=REACH_P)
-                 + store(["VH_C16_UpdatePromise", "VH_C16_CreatePromise"], []) + store(["VH_C05_CompletionTxn"], ["C01:"])}
+                 + store(["VH_C16_UpdatePromise", "VH_C16_CreatePromise"], []) + store(["VH_C05_CompletionTxn"], ["C01:"])
+                 + co(["VH_P_Search"], ["C01:", "C14:overdue"], opts={"slots.callbacks": 1, "slots.locks": 0, "slots.schedules": 0, "slots.promises": 2, "slots.tasks": 1, "faults": 0}, reach={"VH_P_Search": ["page"]})
+                 + co(["VH_C07_Claim"], ["C01:"], opts={"slots.callbacks": 0, "slots.locks": 0, "slots.schedules": 0, "slots.promises": 2, "slots.tasks": 2}, reach=REACH_P)}
 ROUTEOPT_EARLY = {"slots.callbacks": 0, "slots.locks": 0, "slots.schedules": 0, "slots.promises": 2, "slots.tasks": 2}
 reg["C03"] = {"level": "model_checking", "explanation": EXPL, "assumptions": ASSUME_CO,
     "outside": ["HTTP/gRPC header parsing of the idempotency key and strict flag"],
@@ -129,12 +133,12 @@ reg["C12"] = {"level": "model_checking", "explanation": "per-path callback/retur
                   {"name": "VH_C12_AioRefused", "pkg": "internal/aio", "labels": ["C12:", "blocked"], "reach": ["accepted", "refused"]},
                   {"name": "VH_C12_AioDrain", "pkg": "internal/aio", "labels": ["C12:", "blocked"]},
                   {"name": "VH_C12_Loop", "pkg": "internal/kernel/system", "labels": ["C12:", "blocked"], "reach": ["answered", "scheduler-refused"]}]
-                 + co(["VH_X_" + n for n in X_H], ["C12:"], opts=XOPT_Q, optsT=XOPT, reach=REACH_P)
+                 + co(["VH_X_" + n for n in X_H], ["C12:"], opts=XOPT_Q, optsT=XOPT, reach=REACH_P, pgquick=False)
                  + grpc(["C12:", "C15:exactly"], ["ReleaseLock", "ClaimTask", "CreateCallback", "CreatePromiseAndTask"])}
-reg["C13"] = {"level": "other", "explanation": "panic-reachability queries decided by SMT: every gRPC handler runs end to end on a fully symbolic request (real handler -> real api.Process -> real request coroutine under havoc semantics and store faults -> real reply); the decoders of stored client data (router tag source, sender receiver resolution) run on arbitrary stored bytes; every background coroutine runs from an arbitrary invariant-satisfying database. Any reachable Go panic / failed util.Assert / nil dereference / index error on any path is a violation; requests refused by the front end must not have reached the kernel",
+reg["C13"] = {"level": "other", "explanation": "no request that a front end lets through can store state that violates the store invariant (the O2 obligations are re-proved for every transaction a client request causes, end to end from the handler); panic-reachability queries decided by SMT: every gRPC handler runs end to end on a fully symbolic request (real handler -> real api.Process -> real request coroutine under havoc semantics and store faults -> real reply); the decoders of stored client data (router tag source, sender receiver resolution) run on arbitrary stored bytes; every background coroutine runs from an arbitrary invariant-satisfying database. Any reachable Go panic / failed util.Assert / nil dereference / index error on any path is a violation; requests refused by the front end must not have reached the kernel",
     "assumptions": ASSUME_CO + FRONT_ASSUME,
     "outside": ["the HTTP front end (gin routing/binding/validator) is not executed symbolically; its handlers share api.Process, the api-level validation functions and the coroutines that are covered", "HTTP/JSON/protobuf parsing of hostile bytes, oversized bodies", "stalls of the kernel loop, liveness of a real process (seeded change C13-A is an unanswered sender completion, a goroutine-level wedge outside this engine)", "poll / http plugin decoders are covered by C18/C19 harnesses and the native demonstrations"],
-    "harnesses": grpc(["C13:"]) + [{"name": "VH_RT_Tag", "pkg": "internal/app/subsystems/aio/router", "labels": ["C19:"], "reach": ["no-tag", "plain-string", "json-receiver", "json-not-a-receiver"]},
+    "harnesses": grpc(["C13:", "O2:"]) + [{"name": "VH_RT_Tag", "pkg": "internal/app/subsystems/aio/router", "labels": ["C19:"], "reach": ["no-tag", "plain-string", "json-receiver", "json-not-a-receiver"]},
                  {"name": "VH_SN_Process", "pkg": "internal/app/subsystems/aio/sender", "labels": ["C19:"], "reach": ["delivered", "failed-hand-off"]}]
                  + co(["VH_P_TimeoutSweep"], ["C11:sweep-returns"], reach=REACH_P) + co(["VH_T_TimeoutSweep"], ["C11:sweep-returns"], opts=TASKOPT, optsT=TASKOPT_T, reach=REACH_P)
                  + co(["VH_L_TimeoutSweep"], ["C11:sweep-returns"], opts=LOCKOPT, optsT=LOCKOPT_T, reach=REACH_P) + co(["VH_S_Fire"], ["C11:sweep-returns"], opts=SCHEDOPT, optsT=SCHEDOPT_T, reach=REACH_P)
@@ -171,12 +175,13 @@ reg["C02"] = {"level": "model_checking",
     "outside": ["an explicit two-request product exploration (self-composition) is not built: pairs are covered through the environment abstraction, which is complete only relative to Inv/G being the right abstraction of 'what other requests can do' (that is what obligation (3) proves)", "search responses (C14) and claim payload promises are checked for row-equality only"],
     "harnesses": ALL_REQ + [dict(h, opts=dict(h["opts"], retries=1)) for h in co(["VH_P_CompleteOwnEffect"], ["C02:"], reach={"VH_P_CompleteOwnEffect": ["answered"]}) if h.get("tier") != "thorough"]}
 reg["C06"] = {"level": "model_checking",
-    "explanation": "the logical half of durability decided by SMT: Execute of both backends with a failure injected at every database/sql call position of a two-transaction batch (error => database equals the BeginTx snapshot, result => commit succeeded, every statement ran on the transaction opened by this Execute); store.Process builds completions only from a committed Execute; the state invariant (no completed promise with unconverted registrations, no invoke task without its promise) holds after EVERY single commit of every coroutine (labels O2:*), so stopping the process between any two store operations leaves a consistent state; routed creation and completion are single transactions",
+    "explanation": "the background sweep that fires schedules advances a schedule in the same transaction that creates its promise (a crash between two commits cannot lose a scheduled promise); the logical half of durability decided by SMT: Execute of both backends with a failure injected at every database/sql call position of a two-transaction batch (error => database equals the BeginTx snapshot, result => commit succeeded, every statement ran on the transaction opened by this Execute); store.Process builds completions only from a committed Execute; the state invariant (no completed promise with unconverted registrations, no invoke task without its promise) holds after EVERY single commit of every coroutine (labels O2:*), so stopping the process between any two store operations leaves a consistent state; routed creation and completion are single transactions",
     "assumptions": COMMON_ASSUME + ["a committed SQL transaction survives a process kill and an uncommitted one leaves no trace: the durability of SQLite/Postgres themselves is trusted, not checked"],
     "outside": ["kill -9 / restart of the serve command, WAL/fsync behaviour, repeated crashes during recovery", "SqliteStore.Stop/Reset file handling and the default of the reset flag"],
     "harnesses": store(["VH_C06_ExecuteAtomic", "VH_C06_ProcessError"], ["C06:", "C16:", "C12:"]) and [dict(h, reach=["committed", "failed"]) for h in store(["VH_C06_ExecuteAtomic", "VH_C06_ProcessError"], ["C06:", "C16:", "C12:"])]
                  + co(PROMISE_H, ["O2:"], reach=REACH_P) + co(CB_H, ["O2:"], opts=CBOPT, reach=REACH_P) + co(["VH_D_CreateRouted", "VH_D_CreateWithTask"], ["O2:", "C08:routed", "C08:promise-and-task", "C08:create-with-task"], opts=ROUTEOPT, reach=REACH_P)
-                 + store(["VH_C05_CompletionTxn"], ["C05:registration", "C05:exactly", "C05:created"])}
+                 + store(["VH_C05_CompletionTxn"], ["C05:registration", "C05:exactly", "C05:created"])
+                 + co(["VH_S_Fire"], ["C10:promise-created", "C10:one-schedule"], opts=SCHEDOPT, optsT=SCHEDOPT_T, reach=REACH_P)}
 reg["C18"] = {"level": "model_checking",
     "explanation": "bounded symbolic execution of the real connection table (add / rmv / get) and PollWorker.Process over every sequence of k operations (connect, disconnect incl. the late disconnect of a replaced connection, send) with arbitrary (symbolic) group and id strings - which of them coincide is decided by the solver - every buffer size 1..2, limit 1..2, and every random pick; after each step SMT decides the statement's clauses",
     "assumptions": ["channels are modelled as bounded FIFOs with non-blocking operations only (that is all the encoded code uses); prometheus gauges are no-ops; rand.Intn explores every value"],
@@ -209,7 +214,7 @@ def http(labels):
              "reach": ["reply", "refused-by-front-end"]} for n in ["SearchPromises", "SearchSchedules"]]
     return out
 ROUTES = {"name": "VH_H_Routes", "pkg": HTTP, "labels": ["C20:", "C13:"]}
-reg["C13"]["harnesses"] += http(["C13:"]) + [ROUTES]
+reg["C13"]["harnesses"] += http(["C13:", "O2:"]) + [ROUTES]
 reg["C20"]["harnesses"] += [dict(h, labels=["C20:"]) for h in http(["C20:"]) if h["name"] in ("VH_H_ReadPromise", "VH_H_CreatePromise", "VH_H_CompletePromise", "VH_H_CreateCallback", "VH_H_CreateSubscription", "VH_H_ReadSchedule", "VH_H_CreateSchedule", "VH_H_DeleteSchedule", "VH_H_ClaimTask", "VH_H_CompleteTask", "VH_H_AcquireLock") and h.get("tier") != "thorough"] + [ROUTES]
 reg["C20"]["explanation"] += "; the HTTP handlers run end to end on requests from the gin binding contract stub and every field that reaches the kernel equals what the client sent (path ids through extractId), the reply object is the kernel's; http.New is executed with gin v1.10 loaded from source: ids travel in catch-all parameters and the engine is not configured to decode path parameters with query semantics"
 reg["C15"]["harnesses"] += http(["C15:", "C12:"])
@@ -217,3 +222,56 @@ for k in ("C13", "C15"):
     reg[k]["outside"] = [o for o in reg[k]["outside"] if not o.startswith("the HTTP front end")]
     reg[k]["outside"].append("gin's router, JSON/header decoding and validator are replaced by a contract stub: ShouldBind* either fails or yields ANY value satisfying the struct's binding tags (enums with their own UnmarshalJSON take their declared constants), Param returns an arbitrary string (catch-all parameters with gin's leading '/'); the preconditions of that contract (catch-all routes for ids, no query-style unescaping) are checked by VH_H_Routes on the real gin source")
     reg[k]["explanation"] += "; the 17 HTTP handlers are executed the same way (real handler, real api.Process, real coroutine) on requests produced by the binding contract stub"
+
+# The repository's own store suite (store/test/cases.go) run through the encoding of each backend is also an
+# obligation of the store-level properties: the Postgres store test cannot run here (no server), so for the
+# Postgres handlers this is the only execution of those expectations.
+SELFTEST = [{"name": "VH_Selftest", "pkg": "internal/app/subsystems/aio/store/test", "labels": [], "opts": {"backend": b}} for b in (0, 1)]
+for k in ("C16", "C17"):
+    reg[k]["harnesses"] += [dict(h, opts=dict(h["opts"])) for h in SELFTEST]
+    reg[k]["explanation"] += "; the repository's 55 concrete store test cases are executed through the encoding of both backends' handlers and their expected results are obligations (for Postgres, whose store test is skipped without a server, this is the only execution of the suite's expectations)"
+
+# No request that either front end lets through can break the store invariant / guarantee: the front-end
+# harnesses (real handler -> real api -> real System.Tick -> real coroutine under havoc) pose the O2
+# obligations of the property that owns the table the request kind writes.
+def front(hnames, gnames, labels):
+    out = [dict(h, labels=labels) for h in http(labels) if h["name"] in ["VH_H_" + n for n in hnames] and h.get("tier") != "thorough"]
+    out += grpc(labels, gnames)
+    return out
+FRONT_O2 = {
+    "C04": (["CompletePromise"], ["ResolvePromise"], ["O2:I2", "O2:G1"]),
+    "C05": (["CreateCallback", "CreateSubscription"], [], ["O2:I3", "O2:G3"]),
+    "C07": (["ClaimTask", "CompleteTask", "HeartbeatTasks"], [], ["O2:I4", "O2:G2"]),
+    "C09": (["AcquireLock", "ReleaseLock", "HeartbeatLocks"], ["AcquireLock"], ["O2:I5"]),
+    "C10": (["CreateSchedule", "DeleteSchedule"], ["CreateSchedule"], ["O2:I6", "O2:G4"]),
+}
+for k, (hn, gn, lb) in FRONT_O2.items():
+    reg[k]["harnesses"] += front(hn, gn, lb)
+    reg[k]["explanation"] += "; the HTTP/gRPC handlers of the request kinds that write this property's table are run end to end (real handler, real api queue, real System.Tick, the coroutine cmd/serve registers, havoc semantics) and the invariant/guarantee clauses are re-proved for every transaction a client request can cause"
+    reg[k]["assumptions"] = reg[k]["assumptions"] + FRONT_ASSUME
+
+# ---- second round of seeded changes (variants C): units that were not encoded before
+HTTPPL = {"name": "VH_PL_HttpProcess", "pkg": "internal/app/plugins/http", "reach": ["answered", "not-sent", "transport-error"]}
+reg["C08"]["harnesses"].append(dict(HTTPPL, labels=["C08:"]))
+reg["C19"]["harnesses"].append(dict(HTTPPL, labels=["C19:", "C08:", "C20:"]))
+reg["C20"]["harnesses"].append(dict(HTTPPL, labels=["C20:"]))
+reg["C13"]["harnesses"].append(dict(HTTPPL, labels=["C13:"]))
+for k in ("C08", "C19"):
+    reg[k]["explanation"] += "; the http transport plugin's hand-off (real HttpWorker.Process over a net/http client contract stub: NewRequest fails or builds, Do fails or answers with an arbitrary status) reports success only for a 2xx answer (always for 200), posts exactly the dispatched body to exactly the configured url, and sends nothing for undecodable receiver data"
+reg["C19"]["harnesses"].append({"name": "VH_SN_New", "pkg": "internal/app/subsystems/aio/sender", "labels": ["C19:"], "reach": ["builtin-default", "configured-default"]})
+reg["C19"]["explanation"] += "; the real sender constructor builds the target table exactly from the configuration (symbolic target names, a configured target named default included)"
+BATCH = {"name": "VH_E_Batch", "pkg": CO, "labels": ["C17:"], "reach": ["both-ok"]}
+reg["C17"]["harnesses"].append(dict(BATCH))
+reg["C16"]["harnesses"].append(dict(BATCH))
+reg["C17"]["explanation"] += "; two-command transactions over every pair of 8 command kinds are executed by both backends in one Execute call (per-batch prepared-statement cache) and must agree on results and database"
+LOOP = {"name": "VH_C18_Loop", "pkg": "internal/app/plugins/poll", "labels": ["C18:"], "reach": ["sent-after-reconnect"]}
+reg["C18"]["harnesses"].append(dict(LOOP))
+reg["C18"]["explanation"] += "; the real worker loop (PollWorker.Start) runs over its connect/disconnect/message channels with producers delivering events at any select and select free to pick any ready case: a reconnected listener stays registered whatever the timing of the replaced connection's late disconnect, and the message reaches it"
+reg["C18"]["assumptions"] = reg["C18"].get("assumptions", []) + ["loop harness: one worker goroutine; producers act only at the loop's select statements (sequentially consistent interleaving at select granularity); a path ends when the loop would block"]
+# C11: a transport that blocks the single worker goroutine turns a transient failure into a permanent stop
+reg["C11"]["harnesses"].append({"name": "VH_C18_Ops", "pkg": "internal/app/plugins/poll", "labels": ["C18:delivery-reported"], "opts": {"steps": 3}, "reach": ["delivered", "done"]})
+reg["C11"]["explanation"] += "; the poll transport's hand-off never blocks its single worker goroutine (a send that would block is a violation) and reports every message exactly once"
+
+APIQ = [{"name": n, "pkg": "internal/app/subsystems/api", "labels": ["C14:"], "reach": ["accepted", "refused"]} for n in ("VH_A_SearchPromisesReq", "VH_A_SearchPromisesCursor", "VH_A_SearchSchedulesReq")]
+reg["C14"]["harnesses"] += [dict(h) for h in APIQ]
+reg["C14"]["explanation"] += "; the query helper shared by both front ends maps (pattern, state name, tags, limit, cursor) to the kernel request exactly (state names to their documented state sets, default page size 100, out-of-range values refused, a cursor accepted only if it decodes to a valid continuation)"
